@@ -152,32 +152,52 @@ def check_matcher(chk, ix):
                       outs[0][0].path if outs else ())
     chk.absorb(it)
     chk.require_instances("T1", 140)
-    # contains_wildcards delegates to glob.has_magic
-    cw = mc.lookup("contains_wildcards")
+    # contains_wildcards: by evaluation against glob.has_magic (stdlib, trusted), and make_operand on the same texts
+    import glob as _glob
     chk.rule("T2", WHAT["T2"])
-    chk.instance("T2")
-    if any(isinstance(n, ast.Call) and unparse(n.func) == "glob.has_magic" for n in ast.walk(cw.node)):
-        chk.ok("T2", {"contains_wildcards": "glob.has_magic"}, nontrivial_key="has_magic")
-    else:
-        _fail(chk, "T2", cw, "contains_wildcards", "contains_wildcards does not use glob.has_magic (the wildcard syntax fnmatch understands)")
     pc = ix.cls("behave.tag_expression.parser:TagExpressionParser")
     mo = pc.lookup("make_operand")
-    for wild in (True, False):
+    if mo is None:
+        raise AnalysisError("anchor missing: TagExpressionParser.make_operand")
+    texts = ["foo", "foo*", "f?o", "[ab]c", "x[12]", "lvl[2-3]x", "a.b", "foo]", "x[", "a:1", "*", "?", "dev-[0-9]", "wip"]
+    for text in texts:
         made = []
-        stubs = {"Matcher.contains_wildcards": lambda it, s, a, k, n, _w=wild: [(s, "val", _w)],
-                 "Matcher": lambda it, s, a, k, n: (made.append("Matcher"), [(s, "val", "M")])[1],
-                 "Literal": lambda it, s, a, k, n: (made.append("Literal"), [(s, "val", "L")])[1],
-                 "cucumber_tag_expressions.model.Literal": lambda it, s, a, k, n: (made.append("Literal"), [(s, "val", "L")])[1]}
+        stubs = {"glob.has_magic": lambda it, s, a, k, n: [(s, "val", _glob.has_magic(a[0]) if isinstance(a[0], str) else Top("has_magic", False))],
+                 "Matcher": lambda it, s, a, k, n: (made.append(("Matcher", a[0] if a else None)), [(s, "val", "M")])[1],
+                 "Literal": lambda it, s, a, k, n: (made.append(("Literal", a[0] if a else None)), [(s, "val", "L")])[1],
+                 "cucumber_tag_expressions.model.Literal": lambda it, s, a, k, n: (made.append(("Literal", a[0] if a else None)), [(s, "val", "L")])[1]}
         it = Interp(ix, stubs=stubs, name="make_operand")
+        it.int_sat = 50
+        it.fold_regex = True
         st = State()
         st.frames = []
-        outs = it.call_function(st, mo, [TagTok("text")], {}, None, self_val=ClassVal(pc))
+        outs = it.get_attr(st, ClassVal(mc), "contains_wildcards", None)
+        if len(outs) != 1 or outs[0][1] != "val":
+            raise AnalysisError("Matcher.contains_wildcards not found: %r" % ([(k, v) for _, k, v in outs][:2],))
+        from .abscall import apply as _apply
+        r = _apply(it, outs[0][0], outs[0][2], [text], {}, None)
         chk.instance("T2")
-        want = "Matcher" if wild else "Literal"
-        if made == [want]:
-            chk.ok("T2", {"contains_wildcards": wild, "operand": want}, nontrivial_key=wild)
+        want = _glob.has_magic(text)
+        got = [v if k == "val" else repr(v) for (_, k, v) in r]
+        if any(isinstance(v, Top) for v in got):
+            raise AnalysisError("Matcher.contains_wildcards(%r) not foldable: %r" % (text, got))
+        if got == [want]:
+            chk.ok("T2", {"text": text, "contains_wildcards": want}, nontrivial_key=("cw", text))
         else:
-            _fail(chk, "T2", mo, "wildcards=%s -> %s" % (wild, made), "make_operand builds %s for text %s wildcards" % (made, "with" if wild else "without"))
+            _fail(chk, "T2", mo, "contains_wildcards(%r) -> %r" % (text, got),
+                  "Matcher.contains_wildcards(%r) gives %r; fnmatch treats this text as %s (glob.has_magic: '*', '?' and '[' are wildcards)"
+                  % (text, got, "a pattern" if want else "a literal"))
+            continue
+        outs = it.call_function(st, mo, [text], {}, None, self_val=ClassVal(pc))
+        chk.absorb(it)
+        chk.instance("T2")
+        want_op = [("Matcher" if want else "Literal", text)]
+        if made == want_op and all(k == "val" for _, k, _v in outs):
+            chk.ok("T2", {"text": text, "operand": want_op[0][0]}, nontrivial_key=("op", text))
+        else:
+            _fail(chk, "T2", mo, "make_operand(%r) -> %s" % (text, made), "make_operand(%r) builds %s, expected %s (a Matcher exactly for texts "
+                  "with wildcards, on the whole text)" % (text, made, want_op))
+    chk.require_instances("T2", 20)
 
 
 def check_expression_patch(chk, ix):
